@@ -8,18 +8,18 @@ open Composition
 open Editor
 open EdInst
 
-let split c s = String.split_on_char c s
+let split c s = Stdlib.String.split_on_char c s
 let ints_of sep s = if s = "" then [] else Stdlib.List.map int_of_string (split sep s)
 let ns_of sep s = Stdlib.List.map n_of_int (ints_of sep s)
-let cps l = String.concat "." (Stdlib.List.map (fun x -> string_of_int (int_of_n x)) l)
+let cps l = Stdlib.String.concat "." (Stdlib.List.map (fun x -> string_of_int (int_of_n x)) l)
 
 exception Oracle_underflow
 exception Oracle_mismatch of string
 
 (* ---- parsing of logged conversions ---- *)
 let parse_sym s =
-  let v = n_of_int (int_of_string (String.sub s 1 (String.length s - 1))) in
-  if s.[0] = 'S' then SymSyl v else SymChar v
+  let v = n_of_int (int_of_string (Stdlib.String.sub s 1 (Stdlib.String.length s - 1))) in
+  if (Stdlib.String.get s (0)) = 'S' then SymSyl v else SymChar v
 
 let parse_interval s =
   (* b-e:P|N:cps *)
@@ -33,9 +33,9 @@ let parse_intervals s = if s = "" then [] else Stdlib.List.map parse_interval (s
 
 let field name fields =
   let p = name ^ "=" in
-  let n = String.length p in
-  match Stdlib.List.find_opt (fun f -> String.length f >= n && String.sub f 0 n = p) fields with
-  | Some f -> String.sub f n (String.length f - n)
+  let n = Stdlib.String.length p in
+  match Stdlib.List.find_opt (fun f -> Stdlib.String.length f >= n && Stdlib.String.sub f 0 n = p) fields with
+  | Some f -> Stdlib.String.sub f n (Stdlib.String.length f - n)
   | None -> ""
 
 type logged = { l_nth : int; l_syms : string; l_gaps : string; l_sels : string; l_result : interval list; l_raw : string }
@@ -45,9 +45,9 @@ let parse_logged line =
   let lhs, rhs =
     match Str_split.split_arrow line with Some (a, b) -> (a, b) | None -> failwith ("conv line " ^ line)
   in
-  let fs = split ' ' (String.trim lhs) in
+  let fs = split ' ' (Stdlib.String.trim lhs) in
   { l_nth = int_of_string (field "nth" fs); l_syms = field "syms" fs; l_gaps = field "gaps" fs; l_sels = field "sels" fs;
-    l_result = parse_intervals (String.trim rhs); l_raw = line }
+    l_result = parse_intervals (Stdlib.String.trim rhs); l_raw = line }
 
 (* ---- printing of model state in the hook's format ---- *)
 let sym_str = function SymSyl c -> "S" ^ string_of_int (int_of_n c) | SymChar c -> "C" ^ string_of_int (int_of_n c)
@@ -68,15 +68,15 @@ let cmp_iv a b =
 
 let comp_str (c : composition) =
   Printf.sprintf "syms=%s gaps=%s sels=%s"
-    (String.concat "," (Stdlib.List.map sym_str c.symbols))
-    (String.concat "," (Stdlib.List.map gap_str c.gaps))
-    (String.concat "," (Stdlib.List.map iv_str (Stdlib.List.sort cmp_iv c.selections)))
+    (Stdlib.String.concat "," (Stdlib.List.map sym_str c.symbols))
+    (Stdlib.String.concat "," (Stdlib.List.map gap_str c.gaps))
+    (Stdlib.String.concat "," (Stdlib.List.map iv_str (Stdlib.List.sort cmp_iv c.selections)))
 
 let behavior_str = function BIgnore -> "Ignore" | BCommit -> "Commit" | BBell -> "Bell" | BAbsorb -> "Absorb"
 let b01 b = if b then "1" else "0"
 
 let opts_str (o : options) =
-  String.concat ","
+  Stdlib.String.concat ","
     [ b01 o.o_easy_symbol; b01 o.o_esc_clear; b01 o.o_space_select; b01 o.o_auto_shift; b01 o.o_rearward; b01 o.o_no_learn;
       string_of_int (int_of_nat o.o_threshold); string_of_int (int_of_nat o.o_per_page); b01 o.o_english; b01 o.o_fullwidth;
       b01 o.o_add_backward; b01 o.o_fuzzy; (match o.o_engine with EngSimple -> "0" | EngChewing -> "1" | EngFuzzy -> "2");
@@ -101,11 +101,11 @@ let snapshot (e : medl) =
   in
   Printf.sprintf "%s %s cursor=%d stack=%s nth=%d syl=%d last=%s commit=%s notice=%s dirty=%d opts=%s" st
     (comp_str s.com.inner) (int_of_nat s.com.cursor)
-    (String.concat "," (Stdlib.List.map (fun c -> string_of_int (int_of_nat c)) (Stdlib.List.rev s.com.cursor_stack)))
+    (Stdlib.String.concat "," (Stdlib.List.map (fun c -> string_of_int (int_of_nat c)) (Stdlib.List.rev s.com.cursor_stack)))
     (int_of_nat s.nth) (int_of_n (ml_syl_read e)) (behavior_str s.last) (cps s.commit_buf) (cps s.notice) (int_of_n s.dirty)
     (opts_str s.opts)
 
-let key_str k = String.concat "." (Stdlib.List.map (fun x -> string_of_int (int_of_n x)) k)
+let key_str k = Stdlib.String.concat "." (Stdlib.List.map (fun x -> string_of_int (int_of_n x)) k)
 
 let user_str (d : memdict) =
   let ents =
@@ -115,7 +115,7 @@ let user_str (d : memdict) =
         else Some (Printf.sprintf "%s|%s|%d|%d" (key_str k) (cps t) (int_of_n f) (int_of_n tm)))
       d.md_user
   in
-  String.concat ";" (Stdlib.List.sort compare ents)
+  Stdlib.String.concat ";" (Stdlib.List.sort compare ents)
 
 (* ---- the oracle ---- *)
 let queue : logged list ref = ref []
@@ -160,6 +160,16 @@ let conv_oracle (_d : memdict) (_k : engine_kind) (c : composition) (n : nat) : 
       pending := (c, l) :: !pending;
       l.l_result
 
+(* ---- the C context around the editor (Model/CapiKeys.v): keyboard number and selection keys ---- *)
+let cx_kb_ref = ref (n_of_int 0)
+let cx_sel_ref = ref CapiKeys.default_sel_keys
+let cctx_of (e : medl) : CapiKeys.cctx =
+  { CapiKeys.cx_ed = e; cx_kb = !cx_kb_ref; cx_kbcompat = n_of_int 0; cx_sel = !cx_sel_ref }
+let keep_ctx (c : CapiKeys.cctx) : medl =
+  cx_kb_ref := c.CapiKeys.cx_kb;
+  cx_sel_ref := c.CapiKeys.cx_sel;
+  c.CapiKeys.cx_ed
+
 (* ---- ops ---- *)
 let parse_opts s =
   match ints_of ',' s with
@@ -176,6 +186,11 @@ let parse_opts s =
 let run_op (e : medl) (words : string list) : (medl * string) Lib.outcome =
   let ok2 r = match r with Lib.Ok (e', b) -> Lib.Ok (e', b01 b) | Lib.Err x -> Lib.Err x | Lib.Panic s -> Lib.Panic s | Lib.OutOfFuel -> Lib.OutOfFuel in
   let ok1 r tag = match r with Lib.Ok e' -> Lib.Ok (e', tag) | Lib.Err x -> Lib.Err x | Lib.Panic s -> Lib.Panic s | Lib.OutOfFuel -> Lib.OutOfFuel in
+  let crc r =
+    match r with
+    | Lib.Ok (c, rc) -> Lib.Ok (keep_ctx c, string_of_int (Convz.int_of_z rc))
+    | Lib.Err x -> Lib.Err x | Lib.Panic s -> Lib.Panic s | Lib.OutOfFuel -> Lib.OutOfFuel
+  in
   match words with
   | [ "key"; idx; code; uni; s; c; cl; n ] ->
       let ev = { kindex = n_of_int (int_of_string idx); kcode = n_of_int (int_of_string code);
@@ -191,6 +206,27 @@ let run_op (e : medl) (words : string list) : (medl * string) Lib.outcome =
   | [ "ack" ] -> Lib.Ok (ml_ack e, "-")
   | [ "opts"; o ] -> ok1 (ml_set_options e (parse_opts o)) "-"
   | [ "engine"; k ] -> Lib.Ok (ml_set_engine e (match int_of_string k with 0 -> EngSimple | 1 -> EngChewing | _ -> EngFuzzy), "-")
+  (* C entry points (the result printed is the C return code) *)
+  | [ "ckey"; code; mods ] ->
+      (match CapiKeys.handle_code conv_oracle (cctx_of e) (n_of_int (int_of_string code)) (n_of_int (int_of_string mods)) with
+       | Lib.Ok c -> Lib.Ok (keep_ctx c, "0") | Lib.Panic s -> Lib.Panic s | Lib.OutOfFuel -> Lib.OutOfFuel | Lib.Err x -> Lib.Err x)
+  | [ "cdefault"; k ] ->
+      (match CapiKeys.handle_default conv_oracle (cctx_of e) (Convz.z_of_int (int_of_string k)) with
+       | Lib.Ok c -> Lib.Ok (keep_ctx c, "0") | Lib.Panic s -> Lib.Panic s | Lib.OutOfFuel -> Lib.OutOfFuel | Lib.Err x -> Lib.Err x)
+  | [ "cnumlock"; k ] ->
+      (match CapiKeys.handle_numlock conv_oracle (cctx_of e) (Convz.z_of_int (int_of_string k)) with
+       | Lib.Ok c -> Lib.Ok (keep_ctx c, "0") | Lib.Panic s -> Lib.Panic s | Lib.OutOfFuel -> Lib.OutOfFuel | Lib.Err x -> Lib.Err x)
+  | [ "cctrlnum"; k ] -> crc (CapiKeys.handle_ctrlnum conv_oracle (cctx_of e) (Convz.z_of_int (int_of_string k)))
+  | [ "kbtype"; k ] -> crc (CapiKeys.set_kbtype (cctx_of e) (Convz.z_of_int (int_of_string k)))
+  | [ "selkey"; ks ] ->
+      Lib.Ok (keep_ctx (CapiKeys.set_selkey (cctx_of e) (Stdlib.List.map Convz.z_of_int (ints_of ',' ks))), "-")
+  | [ "cchoose"; i ] -> crc (CapiKeys.cand_choose conv_oracle (cctx_of e) (Convz.z_of_int (int_of_string i)))
+  | [ "copen" ] -> crc (CapiKeys.cand_open (cctx_of e))
+  | [ "cclose" ] -> let c, rc = CapiKeys.cand_close (cctx_of e) in Lib.Ok (keep_ctx c, string_of_int (Convz.int_of_z rc))
+  | [ "ccommit" ] -> crc (CapiKeys.commit_preedit conv_oracle (cctx_of e))
+  | [ "ccleanpre" ] -> let c, rc = CapiKeys.clean_preedit (cctx_of e) in Lib.Ok (keep_ctx c, string_of_int (Convz.int_of_z rc))
+  | [ "ccleanbopo" ] -> let c, rc = CapiKeys.clean_bopomofo (cctx_of e) in Lib.Ok (keep_ctx c, string_of_int (Convz.int_of_z rc))
+  | [ "creset" ] -> Lib.Ok (keep_ctx (CapiKeys.reset (cctx_of e)), "-")
   | [ "layout"; k ] -> ok1 (ml_set_layout e (n_of_int (int_of_string k))) "-"
   | [ "clearsyl" ] -> Lib.Ok (ml_clear_syl e, "-")
   | [ "get"; _ ] -> Lib.Ok (e, "-")    (* queries are functions of the state: the model's step is the identity *)
@@ -206,7 +242,7 @@ let run_op (e : medl) (words : string list) : (medl * string) Lib.outcome =
       (match split '|' kt with
        | [ k; t ] -> ok1 (ml_unlearn e (ns_of '.' k) (ns_of '.' t)) "1"
        | _ -> failwith "unlearn")
-  | _ -> failwith ("bad op " ^ String.concat " " words)
+  | _ -> failwith ("bad op " ^ Stdlib.String.concat " " words)
 
 let observe oc (e : medl) =
   (* one conversion for the display, answered by the DCONV line *)
@@ -226,7 +262,7 @@ let observe oc (e : medl) =
     let cands =
       match (ml_candidates e, ml_total_page e, ed_page_no e) with
       | Lib.Ok (Some c), Lib.Ok (Some tp), Some pg ->
-          Printf.sprintf "cands=%d:%s tp=%d pg=%d" (Stdlib.List.length c) (String.concat "," (Stdlib.List.map cps c)) (int_of_nat tp)
+          Printf.sprintf "cands=%d:%s tp=%d pg=%d" (Stdlib.List.length c) (Stdlib.String.concat "," (Stdlib.List.map cps c)) (int_of_nat tp)
             (int_of_nat pg)
       | Lib.Ok None, _, _ -> "cands=-"
       | _ -> "cands=PANIC"
@@ -245,12 +281,12 @@ let conv_main trace out =
      while true do
        let line = input_line ic in
        let tag, rest =
-         match String.index_opt line ' ' with
-         | Some i -> (String.sub line 0 i, String.sub line (i + 1) (String.length line - i - 1))
+         match Stdlib.String.index_opt line ' ' with
+         | Some i -> (Stdlib.String.sub line 0 i, Stdlib.String.sub line (i + 1) (Stdlib.String.length line - i - 1))
          | None -> (line, "")
        in
        match tag with
-       | "CASE" -> Printf.fprintf oc "CASE %s\n" (String.trim rest); sys := []; usr := []; comp := None
+       | "CASE" -> Printf.fprintf oc "CASE %s\n" (Stdlib.String.trim rest); sys := []; usr := []; comp := None
        | "SYS" ->
            (match split '|' rest with
             | [ k; t; f ] ->
@@ -284,7 +320,7 @@ let conv_main trace out =
                  | Lib.Ok (alts, big) ->
                      Printf.fprintf oc "MX %s exact=%s n=%d\n" k (b01 (not big)) (Stdlib.List.length alts);
                      Stdlib.List.iter
-                       (fun ivs -> Printf.fprintf oc "MALT %s %s\n" k (String.concat "," (Stdlib.List.map iv_str ivs)))
+                       (fun ivs -> Printf.fprintf oc "MALT %s %s\n" k (Stdlib.String.concat "," (Stdlib.List.map iv_str ivs)))
                        alts
                  | Lib.Panic n -> Printf.fprintf oc "MX %s PANIC %d\n" k (int_of_n n)
                  | Lib.OutOfFuel -> Printf.fprintf oc "MX %s OUTOFFUEL\n" k
@@ -292,7 +328,7 @@ let conv_main trace out =
             | _ -> ());
            (match (split ' ' rest, !comp) with
             | k :: ivs, Some c when (match ivs with "PANIC" :: _ -> false | _ -> true) ->
-                let ivs = parse_intervals (String.concat " " ivs) in
+                let ivs = parse_intervals (Stdlib.String.concat " " ivs) in
                 let d = { md_sys = !sys; md_user = !usr; md_grave = [] } in
                 let e0 = ml_init d (n_of_int 0) [] { ss_category = []; ss_table = []; ss_cursor = None } (n_of_int 0) in
                 let e = ml_set_engine e0 (match int_of_string k with 0 -> EngSimple | 1 -> EngChewing | _ -> EngFuzzy) in
@@ -314,6 +350,7 @@ let main args =
       let oc = open_out out in
       let sys = ref [] and usr = ref [] and abbr = ref [] and symcat = ref [] and symtab = ref [] in
       let layout0 = ref 0 in
+      let capi_case = ref false in      (* the system dictionary is a trie file: SYS lines come in its lookup order *)
       let ed : medl option ref = ref None in
       let dead = ref false in
       let pending_op : string list option ref = ref None in
@@ -367,22 +404,24 @@ let main args =
          while true do
            let line = input_line ic in
            let tag, rest =
-             match String.index_opt line ' ' with
-             | Some i -> (String.sub line 0 i, String.sub line (i + 1) (String.length line - i - 1))
+             match Stdlib.String.index_opt line ' ' with
+             | Some i -> (Stdlib.String.sub line 0 i, Stdlib.String.sub line (i + 1) (Stdlib.String.length line - i - 1))
              | None -> (line, "")
            in
            match tag with
            | "CASE" ->
                flush_op ();
-               caseno := int_of_string (String.trim rest);
+               caseno := int_of_string (Stdlib.String.trim rest);
                Printf.fprintf oc "CASE %d\n" !caseno;
-               sys := []; usr := []; abbr := []; symcat := []; symtab := []; ed := None; dead := false; layout0 := 0
+               sys := []; usr := []; abbr := []; symcat := []; symtab := []; ed := None; dead := false; layout0 := 0;
+               cx_kb_ref := n_of_int 0; cx_sel_ref := CapiKeys.default_sel_keys; capi_case := false
            | "SYS" ->
                (match split '|' rest with
                 | [ k; t; f ] ->
                     let k = ns_of '.' k and t = ns_of '.' t in
                     if not (Stdlib.List.exists (fun (((k', t'), _), _) -> k' = k && t' = t) !sys) then
-                      sys := bt_insert (((k, t), n_of_int (int_of_string f)), n_of_int 0) !sys
+                      if !capi_case then sys := !sys @ [ (((k, t), n_of_int (int_of_string f)), n_of_int 0) ]
+                      else sys := bt_insert (((k, t), n_of_int (int_of_string f)), n_of_int 0) !sys
                 | _ -> failwith "SYS")
            | "USR" ->
                (match split '|' rest with
@@ -396,7 +435,8 @@ let main args =
                     let c = n_of_int (int_of_string c) in
                     abbr := (c, ns_of '.' e) :: Stdlib.List.filter (fun (c', _) -> c' <> c) !abbr
                 | _ -> failwith "ABBR")
-           | "LAYOUT" -> layout0 := int_of_string (String.trim rest)
+           | "LAYOUT" -> layout0 := int_of_string (Stdlib.String.trim rest)
+           | "CAPI" -> capi_case := true
            | "SYMSEL" ->
                (match split '=' rest with
                 | [ name; tab ] ->
@@ -407,7 +447,7 @@ let main args =
            | "INIT" ->
                let d = { md_sys = !sys; md_user = !usr; md_grave = [] } in
                let ss = { ss_category = Stdlib.List.rev !symcat; ss_table = Stdlib.List.rev !symtab; ss_cursor = None } in
-               ed := Some (ml_init d (n_of_int !layout0) !abbr ss (n_of_int (int_of_string (String.trim rest))))
+               ed := Some (ml_init d (n_of_int !layout0) !abbr ss (n_of_int (int_of_string (Stdlib.String.trim rest))))
            | "OP" ->
                flush_op ();
                pending_op := Some (Stdlib.List.filter (fun w -> w <> "") (split ' ' rest))
